@@ -348,3 +348,10 @@ Theorem process_wide_memo_refuted :
   /\ c_last [11; 12; 13] Cref_nomemo [0%nat] 1%nat = c_last [11; 12; 13] Cref_nomemo [] 1%nat.
 Proof. exact process_wide_memo_refuted_lemma. Qed.
 Print Assumptions process_wide_memo_refuted.
+
+(* round 7: the outcome (exception or matrix) of SurfSourceMat against a second head does not depend on what an earlier
+   assembly left on the same Mesh object *)
+Theorem surfsource_outcome_independent_of_earlier_assemblies : forall c W s s',
+  y_desc s = y_desc s' -> hd 0 (snd (m_step c W MSurfSource2 s)) = hd 0 (snd (m_step c W MSurfSource2 s')).
+Proof. exact surfsource_outcome_independent_of_flags_lemma. Qed.
+Print Assumptions surfsource_outcome_independent_of_earlier_assemblies.
